@@ -75,7 +75,7 @@ def gen_accesses(c, r, aw_wb, ratio_n):
         if kind in ("classic", "aborts", "aborts-reads", "aborts-writes"):
             we = r.random() < 0.5
             may_abort = kind == "aborts" or (kind == "aborts-reads" and not we) or (kind == "aborts-writes" and we)
-            beat = dict(adr=base, we=we, sel=full if r.random() < 0.5 else (r.getrandbits(wbb) or 1), dat=r.getrandbits(c["wbw"]), cti=0,
+            beat = dict(adr=base, we=we, sel=full if r.random() < 0.5 else r.getrandbits(wbb), dat=r.getrandbits(c["wbw"]), cti=0,
                         abort_after=r.randint(0, 12) if (may_abort and r.random() < (0.4 if kind == "aborts" else 0.6)) else None)
             groups.append([beat])
             n += 1
@@ -84,7 +84,7 @@ def gen_accesses(c, r, aw_wb, ratio_n):
             we = r.random() < 0.5
             g = []
             for i in range(ln):
-                g.append(dict(adr=base + i, we=we, sel=full if r.random() < 0.7 else (r.getrandbits(wbb) or 1), dat=r.getrandbits(c["wbw"]),
+                g.append(dict(adr=base + i, we=we, sel=full if r.random() < 0.7 else r.getrandbits(wbb), dat=r.getrandbits(c["wbw"]),
                               cti=2 if i < ln - 1 else 7,
                               abort_after=r.randint(0, 12) if (cls == "aborts-bursts" and r.random() < 0.1) else None))
             groups.append(g)
@@ -93,7 +93,7 @@ def gen_accesses(c, r, aw_wb, ratio_n):
             wide = (base // max(1, ratio_n)) * max(1, ratio_n)
             g = []
             for i in range(r.randint(3, 8)):
-                g.append(dict(adr=wide + r.randrange(max(1, ratio_n)), we=r.random() < 0.5, sel=full if r.random() < 0.6 else (r.getrandbits(wbb) or 1),
+                g.append(dict(adr=wide + r.randrange(max(1, ratio_n)), we=r.random() < 0.5, sel=full if r.random() < 0.6 else r.getrandbits(wbb),
                               dat=r.getrandbits(c["wbw"]), cti=0, abort_after=None))
             if r.random() < 0.5:
                 # one CYC for the whole group; half of these masters tag beats as "incrementing burst, more to come" (CTI=2)
